@@ -1571,7 +1571,9 @@ def _run(ctx):
                 "every route x head sizes below/equal/above the populated axis, filter and remove_empty on both axes; "
                 "every stream also runs on partly annotated axes and on tables whose axes share names (vary_spec); "
                 "NFC/NFD twin IDs, nasty texts as IDs and metadata values, binary64 edge values, 520-600-ID axes, "
-                "decorated / re-entrant predicates, warnings as errors, argument collection untouched. non-trivial = table with >= 2 cells / matrix with >= 1 vector; "
+                "decorated / re-entrant predicates, warnings as errors, argument collection untouched; None / falsy metadata "
+                "values, heterogeneous key sets, predicates reading md[key] (their write of key: None is accounted "
+                "for). non-trivial = table with >= 2 cells / matrix with >= 1 vector; "
                 "distinct = distinct (receiver recipe, request, implementation)")
     ctx.trusted = ["scipy tocsr()/tocsc()/sort_indices()/transpose/toarray are external: the layout handed to the "
                    "model is read from scipy, sort_indices is modelled by its contract (sortIndices)",
